@@ -113,3 +113,14 @@ package docx
 //@   ensures empty_means_top_level: s == "" ==> r == 0
 //@   loop 0:
 //@     invariant 0 <= level && level <= maxListLevel
+
+// ---- the walk along basedOn marks EVERY style it visits, so a cycle anywhere in the chain ends the walk (a cycle that
+// does not contain the starting style included).  Filed under C15 (style resolution decides the heading levels): the
+// termination argument itself - the set of unmarked styles shrinks - needs a cardinality variant that is not
+// mechanised, so the loop is NOT among the C02 termination obligations; what is proved is the marking discipline. ----
+//@ func (*StyleResolver) buildInheritanceChain results (res)
+//@   property C15
+//@   loop 0:
+//@     step the_style_just_visited_is_marked: has(visited, prev(current)) && visited[prev(current)]
+//@     step marks_are_never_removed: forall k string :: {visited[k]} has(prev(visited), k) && prev(visited)[k] ==> has(visited, k) && visited[k]
+//@     step chain_grows_by_one: len(chain) == prev(len(chain)) + 1
